@@ -124,7 +124,7 @@ func differentialCold(s Spec) (class string, c Case, ok bool) {
 	return diffClass(exp, ri.res), c, true
 }
 
-const coldSig = "only on a fresh runtime (vanishes once the VM stacks have grown)|"
+const coldSig = "only on a fresh runtime (vanishes once the VM stacks have grown)"
 
 // doCold runs one spec on a brand-new runtime: behaviour must not depend on the capacity of the VM's stacks.
 func (w *worker) doCold(s Spec) bool {
@@ -144,11 +144,11 @@ func (w *worker) doCold(s Spec) bool {
 	}
 	for i := 0; i < 5; i++ {
 		if cl, _, _ := differentialCold(s); cl != class {
-			w.r.Violation("nondeterministic|"+coldSig+class, "did not reproduce 5/5: "+s.String(), c)
+			w.r.Violation("nondeterministic|"+coldSig, "did not reproduce 5/5: "+s.String(), c)
 			return true
 		}
 	}
-	w.r.Violation(coldSig+class, fmt.Sprintf("%s, but only on a brand-new runtime: goja gives %s, ECMA-262 (cfjs) demands %s (and a runtime whose try/iterator/call stacks were grown beforehand agrees); program:\n%s", class, fmtResult(c.Got), fmtResult(c.Expected), c.Src), c)
+	w.r.Violation(coldSig, fmt.Sprintf("%s, but only on a brand-new runtime: goja gives %s, ECMA-262 (cfjs) demands %s (and a runtime whose try/iterator/call stacks were grown beforehand agrees); program:\n%s", class, fmtResult(c.Got), fmtResult(c.Expected), c.Src), c)
 	return true
 }
 
@@ -271,9 +271,6 @@ func diffSig(nativeMk bool, class string, m Spec) string {
 	inner := leafName(m.Leaf)
 	if n := len(m.Frames); n > 0 {
 		inner = frames[m.Frames[n-1]].name + " > " + inner
-		if n > 1 {
-			inner = "... > " + inner
-		}
 	}
 	return flavour(nativeMk) + kind + " @ " + wrappers[m.W].name + " > " + inner
 }
@@ -316,7 +313,13 @@ func confirmOnce(s Spec, nativeMk bool, class string) bool {
 
 func (w *worker) reportDiff(s Spec, class string) {
 	r, nativeMk := w.r, w.nativeMk
-	if w.red == nil {
+	if nativeMk {
+		// a disagreement that does not depend on the iterator flavour is reported under the flavour-less signature
+		if cl, _, _ := differential(s, false); cl == class {
+			nativeMk = false
+		}
+	}
+	if w.red == nil || w.red.nativeMk != nativeMk {
 		w.red = &reducer{nativeMk: nativeMk}
 	}
 	m := w.red.canonical(s, class)
@@ -481,11 +484,18 @@ func checkFault(s Spec, p *cfjs.Program, src string, kind, k int, nativeMk bool)
 			fmt.Sprintf("a StackOverflowError raised (probe %d) inside an iterator's return() method that was called to close the iterator is swallowed: outcome %q, events after the fault %v; program:\n%s", c.FaultAt, ri.res.Outcome, ri.res.Events[e.firedLen:], src), c, true
 	}
 	// 1. nothing of the program may run after an uncatchable fault
+	// (An interrupt is only noticed at the next VM instruction: Go-native next()/return() methods that an
+	// all-native loop - a built-in consumer, or the unwinding of a JS exception closing several native iterators -
+	// calls before any VM instruction runs are latency, which is C15's subject. If the flag was raised by JS code
+	// (a log probe) the very next instruction notices it, so nothing at all may follow.)
+	firing := evKind(ri.res.Events[e.firedLen-1])
+	nativeLoop := kind == faultInterrupt && nativeMk
 	for _, ev := range ri.res.Events[e.firedLen:] {
 		k := evKind(ev)
-		if k == "next" && kind == faultInterrupt && nativeMk {
-			continue // an all-native iteration loop has no VM instruction at which the interrupt could be noticed (latency is C15's subject)
+		if nativeLoop && (k == "next" || k == "return()" && firing != "log") {
+			continue
 		}
+		nativeLoop = false
 		owner, _ := eventOwner(p, ev)
 		return pre + "ran " + k + "@" + ownerGroup(owner),
 			fmt.Sprintf("after an uncatchable %s injected at probe %d, the program still ran %s (%s of %s): events after the fault %v; program:\n%s", faultNames[kind], c.FaultAt, ev, k, owner, ri.res.Events[e.firedLen:], src), c, true
@@ -594,7 +604,7 @@ func replay(r *core.Run, raw json.RawMessage) {
 	if c.Cold {
 		if cl, c2, _ := differentialCold(c.Spec); cl != "" {
 			if warm, _, _ := differential(c.Spec, false); warm == "" {
-				r.Violation(coldSig+cl, fmt.Sprintf("%s, but only on a brand-new runtime: goja gives %s, ECMA-262 (cfjs) demands %s; program:\n%s", cl, fmtResult(c2.Got), fmtResult(c2.Expected), c2.Src), c2)
+				r.Violation(coldSig, fmt.Sprintf("%s, but only on a brand-new runtime: goja gives %s, ECMA-262 (cfjs) demands %s; program:\n%s", cl, fmtResult(c2.Got), fmtResult(c2.Expected), c2.Src), c2)
 			}
 		}
 		return
